@@ -30,6 +30,7 @@ ASSUMPTIONS = [
     "bjobs prints nothing for an id it no longer knows (as gwf's LSF backend assumes)",
     "the tracked-jobs file is read as a JSON object name -> id (the observation point named by the property)",
 ]
+CASE_TIMEOUT_S = 200
 BUDGET = {
     "quick": {"examples": 150, "wall_s": 100, "shards": 4},
     "thorough": {"examples": 1500, "wall_s": 1200, "shards": 16},
@@ -96,6 +97,9 @@ def enumerate_cases(tier):
         for code in ("FAILED", "CANCELLED", "TIMEOUT"):
             yield {"kind": "code", "backend": "slurm", "where": "acct", "code": code, "acct": False, "files": "fresh",
                    "config_via": "cli", "word": word}
+    # restarts of the local worker pool: the new pool must not answer for jobs of the old one
+    for other_first in (True, False):
+        yield {"kind": "restart", "other_first": other_first}
     yield {"kind": "many", "n": 2500 if tier == "thorough" else 1100, "acct": True}
     yield {"kind": "many", "n": 1030, "acct": False}
 
@@ -226,6 +230,56 @@ def run_cross(case):
                 viols.append(Violation({"kind": "second-backend-state", "first": a, "second": b},
                                        f"`gwf -b {b} status` shows {r4.status_rows().get('T')!r} for its pending job {jb.id}"))
     return CaseResult(viols, True, ["cross", f"{a}-then-{b}"])
+
+
+def run_restart(case):
+    """Local backend: T is submitted to a pool, the pool is restarted, other work is submitted to the new pool.
+    T's job no longer exists anywhere, so T falls back to the file-based decision - whatever the new pool's
+    tasks are doing."""
+    import time
+
+    from vlib import realpool
+
+    desc = {"targets": [{"name": "T", "inputs": [], "outputs": ["t.out"], "spec": "sleep 30\n", "wd": None},
+                        {"name": "Other", "inputs": [], "outputs": ["o.out"], "spec": "sleep 30\n", "wd": None},
+                        {"name": "Quick", "inputs": [], "outputs": ["q.out"], "spec": "touch q.out\n", "wd": None}],
+            "files": {}}
+    viols = []
+    with project.Project(desc, backend="local") as proj:
+        pool = realpool.Pool(proj.dir, 2)
+        try:
+            proj.write_config({"backend": "local", "backend.local.port": pool.port, "backend.local.host": "127.0.0.1"})
+            first = ["Other", "T"] if case["other_first"] else ["T"]
+            for n in first:
+                r = proj.gwf(["run", n])
+                if r.code != 0 or r.crashed:
+                    raise hist.HarnessError("setup run failed: " + r.brief())
+            t0 = proj.gwf(["status", "T"]).status_rows().get("T")
+            if t0 not in ("running", "submitted"):
+                viols.append(Violation({"kind": "local-state-before-restart"}, f"T shows {t0!r} right after submission"))
+            pool.stop()
+            port = pool.port
+            time.sleep(0.2)
+            pool = realpool.Pool(proj.dir, 2)
+            proj.write_config({"backend": "local", "backend.local.port": pool.port, "backend.local.host": "127.0.0.1"})
+            # the restarted pool knows nothing: T has no job any more
+            r1 = proj.gwf(["status", "T"])
+            s1 = r1.status_rows().get("T")
+            if r1.code != 0 or s1 != "shouldrun":
+                viols.append(Violation({"kind": "state-after-pool-restart", "when": "empty-pool"},
+                                       f"after a pool restart T shows {s1!r}, expected the file-based 'shouldrun': {r1.brief()}"))
+            # other work on the new pool must not be mistaken for T's job
+            r2 = proj.gwf(["run", "Other" if not case["other_first"] else "Quick"])
+            time.sleep(0.3)
+            r3 = proj.gwf(["status", "T"])
+            s3 = r3.status_rows().get("T")
+            if s3 != "shouldrun":
+                viols.append(Violation({"kind": "state-after-pool-restart", "when": "new-pool-has-other-tasks"},
+                                       f"T was submitted to a pool that no longer exists; while the restarted pool runs other tasks "
+                                       f"`gwf status` shows T as {s3!r} (state of somebody else's task), expected 'shouldrun'"))
+        finally:
+            pool.stop()
+    return CaseResult(viols, True, ["restart", "backend-local"])
 
 
 def run_many(case):
@@ -400,4 +454,4 @@ def run_hist(case):
 
 
 def run_case(case):
-    return {"code": run_code, "many": run_many, "hist": run_hist, "cross": run_cross}[case["kind"]](case)
+    return {"code": run_code, "many": run_many, "hist": run_hist, "cross": run_cross, "restart": run_restart}[case["kind"]](case)
